@@ -331,10 +331,14 @@ class Inject:
             n = 1 if size is None else int(size)
             return np.tile(out, (n, 1))
         np.random.multivariate_normal = fake
+        # post_select_homodyne draws the unresolved conjugate quadrature with np.random.normal: make it deterministic
+        self.orig_normal = np.random.normal
+        np.random.normal = lambda loc=0.0, scale=1.0, size=None: (loc if size is None else np.full(size, loc))
         return self
 
     def __exit__(self, *a):
         np.random.multivariate_normal = self.orig
+        np.random.normal = self.orig_normal
 
 
 def run_plain(nmodes, cmds, inj, strip_meas=False):
@@ -1130,7 +1134,13 @@ def engine_check(ctx, spec, shots, inj, space=False):
         return found
     # flags present in the rolled circuit the engine actually unrolled (after compilation: decompositions use .H)
     compiled = eng.run_progs[-1]
-    prog_measured = list(compiled.measured_modes)
+    # Python's own iteration order of the set of measured positions (the known set-order finding applies
+    # only when THIS is unsorted, whatever measured_modes returns)
+    _ms = set()
+    for c in spec["cmds"]:
+        if OPS[c[0]][2]:
+            _ms.add(c[2][0])
+    prog_measured = list(_ms)
     # (only counts as "dropped" when the unrolled circuit that was executed has lost them)
     c_dag = any(getattr(c.op, "dagger", False) for c in compiled.rolled_circuit) and not any(getattr(c.op, "dagger", False) for c in compiled.circuit)
     user_dag = any(c[3]["dag"] for c in spec["cmds"])
